@@ -399,6 +399,9 @@ impl<T> Future for ReceiveFuture<'_, T> {
                 _ => {
                     if this.is_stream {
                         this.state = FutureState::Zero;
+                        // the signal of the previous wait is finished, it must
+                        // not look completed when it is registered again
+                        this.sig.reset();
                         continue;
                     }
                     panic!("polled after result is already returned")
